@@ -197,6 +197,14 @@ func serTexts(rs []*rules.NetworkRule) string {
 	return strings.Join(t, ",")
 }
 
+// count is the number of rules the result reports (duplicates included).
+func (r *histResult) count() int {
+	if r.dns != nil {
+		return len(r.dns.NetworkRules) + len(r.dns.HostRulesV4) + len(r.dns.HostRulesV6)
+	}
+	return len(r.net)
+}
+
 func (r *histResult) serialise() string {
 	if r.dns != nil {
 		var v4, v6 []string
